@@ -92,9 +92,15 @@ def main():
     ap.add_argument("--jobs", type=int, default=4)
     ap.add_argument("--json")
     ap.add_argument("--file")
+    ap.add_argument("--refactors", action="store_true", help="run the independently produced behaviour-preserving patches in /verif/refactors")
     a = ap.parse_args()
     ms = []
-    if a.seeds:
+    if a.refactors:
+        rd = os.path.join(VERIF, "refactors")
+        for n in sorted(os.listdir(rd)):
+            if n.endswith(".diff"):
+                ms.append({"name": "refactor:" + n[:-5], "patch": os.path.join(rd, n), "harmless": True})
+    elif a.seeds:
         sd = os.path.join(VERIF, "seeded")
         for n in sorted(os.listdir(sd)):
             meta = os.path.join(sd, n, "meta.json")
